@@ -196,7 +196,7 @@ def classify_traceback(tb):
 # live host objects
 
 class Handle:
-    __slots__ = ('cid', 'spec', 'user', 'peer', 'instance', 'raised_before', 'calls')
+    __slots__ = ('cid', 'spec', 'user', 'peer', 'instance', 'raised_before', 'calls', 'poked')
 
     def __init__(self, cid, spec):
         self.cid = cid
@@ -206,6 +206,7 @@ class Handle:
         self.instance = None
         self.raised_before = False
         self.calls = 0
+        self.poked = None
 
 
 def newline_of(spec, glob):
@@ -334,6 +335,16 @@ class Host:
         elif kind == 'rebuild_cfg':
             h = self.cfgs[op['cfg']]
             h.instance = self.make_config(h.user, self.global_of(h.spec))
+        elif kind == 'poke_cfg':
+            # the host assigns into ITS resolved Config (top-level keys of .options/.snippets/
+            # .variables), as the repository's own tests do; from now on calls on this very
+            # Config have no defined reference (until it is rebuilt), calls on others do
+            h = self.cfgs[op['cfg']]
+            if h.instance is not None:
+                target = getattr(h.instance, op['section'], None)
+                if isinstance(target, dict):
+                    target[op['key']] = jcopy(op['value'])
+                h.poked = h.instance
         else:
             raise HarnessError('unknown host op %r' % kind)
 
